@@ -18,7 +18,13 @@ def solve_cases(draw):
     else:
         model = draw(models.cvx_models(allow_infeasible=True, max_n=4))
         method = draw(st.sampled_from(NLP_METHODS + ["SLSQP", "auto"]))
-    return {"model": model, "method": method,
+    inject = None
+    if draw(st.integers(0, 2)) == 0:
+        inject = {"success": draw(st.booleans()),
+                  "message": draw(st.sampled_from(["Optimization terminated successfully", "Positive directional derivative for linesearch",
+                                                   "Iteration limit reached", "Inequality constraints incompatible"])),
+                  "point": [draw(st.sampled_from([-7.0, -2.5, -1.0, 0.0, 0.5, 1.0, 3.0, 8.0])) for _ in range(4)]}
+    return {"model": model, "method": method, "inject": inject,
             "edit": draw(st.sampled_from([None, None, "tighten-ub", "tighten-lb"])),
             "resolve": draw(st.integers(0, 2)) == 0,
             "param_con": draw(st.sampled_from([None, None, None, "true", "false"])) if fam == "cvx" else None}
@@ -31,6 +37,7 @@ def sample_repr(case):
     d["edit"] = case.get("edit")
     d["resolve"] = case.get("resolve")
     d["param_con"] = case.get("param_con")
+    d["inject"] = case.get("inject")
     return d
 
 
